@@ -93,6 +93,8 @@ def run_tlc(workdir, module, cfg, env_extra=None, workers=1, xmx="3g", timeout=9
     meta = os.path.join(workdir, "states_" + module + "_" + str(os.getpid()) + "_" + str(time.time_ns()))
     cmd = ["java", "-XX:+UseParallelGC", "-Xmx" + xmx, "-cp", TLA_CP, "tlc2.TLC",
            "-workers", str(workers), "-metadir", meta, "-cleanup", "-noGenerateSpecTE",
+           "-checkpoint", "0",          # a checkpoint of a behaviour longer than 65535 states makes TLC give up
+
            "-config", cfg, module] + (extra or [])
     try:
         p = subprocess.run(cmd, cwd=workdir, env=env, stdout=subprocess.PIPE, stderr=subprocess.STDOUT,
@@ -152,8 +154,7 @@ def split_session(records, chunk_events):
     over a cut: that only makes the later piece's expectations weaker, never wrong."""
     if len(records) <= 2 * chunk_events:
         return [(0, records)]
-    # TLC follows a single behaviour for at most 65535 states: a longer stretch without a table reset
-    # cannot be validated as one piece (generators cut their sessions long before that)
+    # (TLC cannot checkpoint a behaviour longer than 65535 states: checkpoints are switched off in run_tlc)
     out = []
     cfgrec = records[0]
     start, start_cfg = 0, records[0]
@@ -167,9 +168,6 @@ def split_session(records, chunk_events):
             start, start_cfg = ri, cfgrec
     piece = records[start:]
     out.append((start, piece if start == 0 else [start_cfg] + piece))
-    for (_, pc) in out:
-        if len(pc) > 65000:
-            raise ToolError("a session has %d records without a table reset; TLC validates at most 65535 per behaviour" % len(pc))
     return out
 
 
